@@ -11,6 +11,7 @@ from typing import (
     Callable,
     Generic,
     Hashable,
+    List,
     Mapping,
     Optional,
     Sequence,
@@ -220,14 +221,25 @@ class CaseWhen(Generic[A, B], Evaluatable[B]):
         self.default = default
 
     def _evaluate(self, value: A, options: Options) -> Evaluatable[B]:
+        evaluated: List[Evaluatable[Callable[[A], bool]]] = []
         for condition, result in self.cases:
+            evaluated.append(condition)
             if condition.evaluate(options)(value):
-                return result
+                return self._chosen(result, evaluated)
 
         if self.default is not MISSING:
-            return self.default
+            return self._chosen(self.default, evaluated)
 
         raise CaseWhenError(self.dispatch, value)
+
+    @staticmethod
+    def _chosen(
+        result: Evaluatable[B], conditions: Sequence[Evaluatable[Any]]
+    ) -> Evaluatable[B]:
+        # The choice depends on every condition that was evaluated to make it.
+        for condition in conditions:
+            result = _DependsOn(result, condition)
+        return result
 
     def _bound(self, options: Options) -> Evaluatable[B]:
         return self.dispatch.bind(functools.partial(self._evaluate, options=options))
